@@ -22,16 +22,17 @@ import (
 )
 
 type cfg struct {
-	OnClone bool // the monitor is created on a filter clone (CloneWithFilter(Null)) of the root, not on the root
-	Reuse   bool // a second untyped monitor whose handler comes from the SAME builder with replaced callbacks
-	Upd2    bool // the stream is two updates of one object, then its delete (a lagging handler has both updates queued)
-	Foreign bool // the cache holds an object of another type at readiness (typed monitors must skip it, not give up)
-	Typed   bool
-	K       int    // events published
-	CloseAt int    // -1: never; k: the closer acts after k events have been published (0 = before the first); 99 = before the parent is ready
-	Closer  string // "monitor" (Monitor.Close) | "root" (publisher shuts down)
-	Mode    string
-	Bound   int
+	Statement bool // the handler builder is used statement by statement (b.OnCreate(..); b.OnUpdate(..); b.Create()), not as one chain
+	OnClone   bool // the monitor is created on a filter clone (CloneWithFilter(Null)) of the root, not on the root
+	Reuse     bool // a second untyped monitor whose handler comes from the SAME builder with replaced callbacks
+	Upd2      bool // the stream is two updates of one object, then its delete (a lagging handler has both updates queued)
+	Foreign   bool // the cache holds an object of another type at readiness (typed monitors must skip it, not give up)
+	Typed     bool
+	K         int    // events published
+	CloseAt   int    // -1: never; k: the closer acts after k events have been published (0 = before the first); 99 = before the parent is ready
+	Closer    string // "monitor" (Monitor.Close) | "root" (publisher shuts down)
+	Mode      string
+	Bound     int
 }
 
 func (c cfg) name() string {
@@ -47,6 +48,9 @@ func (c cfg) name() string {
 	}
 	if c.OnClone {
 		t += "+on-filter-clone"
+	}
+	if c.Statement {
+		t += "+builder-statements"
 	}
 	if c.Reuse {
 		t += "+builder-reused"
@@ -126,7 +130,28 @@ func (in *inst) run() {
 			OnCreate(func(p *corev1.Pod) { in.cb("create", hx.ObjString(p)) }).
 			OnUpdate(func(p *corev1.Pod) { in.cb("update", hx.ObjString(p)) }).
 			OnDelete(func(p *corev1.Pod) { in.cb("delete", hx.ObjString(p)) }).Create()
+		if c.Statement {
+			b := pod.BuildHandler()
+			b.OnInitialize(func(l []*corev1.Pod) {
+				var ml []metav1.Object
+				for _, p := range l {
+					ml = append(ml, p)
+				}
+				in.cb("init", hx.ListString(ml))
+			})
+			b.OnCreate(func(p *corev1.Pod) { in.cb("create", hx.ObjString(p)) })
+			b.OnUpdate(func(p *corev1.Pod) { in.cb("update", hx.ObjString(p)) })
+			b.OnDelete(func(p *corev1.Pod) { in.cb("delete", hx.ObjString(p)) })
+			h = b.Create()
+		}
 		mon, err = pod.NewMonitor(pc, h)
+	} else if c.Statement {
+		b := kcache.BuildHandler()
+		b.OnInitialize(func(l []metav1.Object) { in.cb("init", hx.ListString(l)) })
+		b.OnCreate(func(o metav1.Object) { in.cb("create", hx.ObjString(o)) })
+		b.OnUpdate(func(o metav1.Object) { in.cb("update", hx.ObjString(o)) })
+		b.OnDelete(func(o metav1.Object) { in.cb("delete", hx.ObjString(o)) })
+		mon, err = kcache.NewMonitor(in.root.Pub, b.Create())
 	} else {
 		var pub kcache.Publisher = in.root.Pub
 		if c.OnClone {
@@ -342,6 +367,7 @@ func Property() runner.Property {
 				out = append(out, scenario(cfg{Typed: typed, K: 3, CloseAt: -1, Closer: "none", Mode: "S2", Bound: 3}))
 				out = append(out, scenario(cfg{Typed: typed, Foreign: true, K: 2, CloseAt: -1, Closer: "none", Mode: "S2", Bound: 3}))
 				out = append(out, scenario(cfg{Typed: typed, Upd2: true, K: 3, CloseAt: -1, Closer: "none", Mode: "S2", Bound: 2}))
+				out = append(out, scenario(cfg{Typed: typed, Statement: true, K: 2, CloseAt: -1, Closer: "none", Mode: "S2", Bound: 1}))
 				if !typed {
 					out = append(out, scenario(cfg{Reuse: true, K: 2, CloseAt: -1, Closer: "none", Mode: "S2", Bound: 2}))
 					// a monitor on a filter clone of a publisher that shuts down before it is ready: no callback at all
